@@ -21,7 +21,8 @@ class Driver:
         self.start()
 
     def start(self):
-        self.proc = subprocess.Popen([self.binary], stdin=subprocess.PIPE, stdout=subprocess.PIPE,
+        argv = list(self.binary) if isinstance(self.binary, (list, tuple)) else [self.binary]
+        self.proc = subprocess.Popen(argv, stdin=subprocess.PIPE, stdout=subprocess.PIPE,
                                      stderr=self.stderr, env=self.env, cwd=self.cwd, bufsize=0)
         self.buf = b""
 
